@@ -13,8 +13,7 @@ use chumsky_verif_harness::build::*;
 use chumsky_verif_harness::run::{run_one, BASE};
 use chumsky_verif_harness::val::*;
 
-type E<'src> = Rich<'src, char, Sp>;
-type BOp<'src> = pratt::Boxed<'src, 'src, &'src str, Val, Ex<E<'src>>>;
+type BOp<'src, I, E> = pratt::Boxed<'src, 'src, I, Val, Ex<E>>;
 
 #[derive(Clone)]
 enum OpK {
@@ -33,56 +32,56 @@ fn fold_post(l: Val, op: Val, sp: Sp) -> Val {
     Val::tag(22, Val::pair(Val::pair(l, op), Val::span(sp)))
 }
 
-fn build_op<'src>(k: &OpK, p: BP<'src, &'src str, E<'src>>) -> BOp<'src> {
+fn build_op<'src, I: HInput<'src>, E: HErr<'src, I>>(k: &OpK, p: BP<'src, I, E>) -> BOp<'src, I, E> {
     match k {
-        OpK::Infix(true, bp) => infix(left(*bp), p, |l, op, r, e: &mut chumsky::input::MapExtra<'src, '_, &'src str, Ex<E<'src>>>| {
+        OpK::Infix(true, bp) => infix(left(*bp), p, |l, op, r, e: &mut chumsky::input::MapExtra<'src, '_, I, Ex<E>>| {
             fold_in(l, op, r, e.span())
         })
         .boxed(),
-        OpK::Infix(false, bp) => infix(right(*bp), p, |l, op, r, e: &mut chumsky::input::MapExtra<'src, '_, &'src str, Ex<E<'src>>>| {
+        OpK::Infix(false, bp) => infix(right(*bp), p, |l, op, r, e: &mut chumsky::input::MapExtra<'src, '_, I, Ex<E>>| {
             fold_in(l, op, r, e.span())
         })
         .boxed(),
-        OpK::Prefix(bp) => prefix(*bp, p, |op, r, e: &mut chumsky::input::MapExtra<'src, '_, &'src str, Ex<E<'src>>>| {
+        OpK::Prefix(bp) => prefix(*bp, p, |op, r, e: &mut chumsky::input::MapExtra<'src, '_, I, Ex<E>>| {
             fold_pre(op, r, e.span())
         })
         .boxed(),
-        OpK::Postfix(bp) => postfix(*bp, p, |l, op, e: &mut chumsky::input::MapExtra<'src, '_, &'src str, Ex<E<'src>>>| {
+        OpK::Postfix(bp) => postfix(*bp, p, |l, op, e: &mut chumsky::input::MapExtra<'src, '_, I, Ex<E>>| {
             fold_post(l, op, e.span())
         })
         .boxed(),
     }
 }
 
-fn build_table<'src>(
+fn build_table<'src, I: HInput<'src>, E: HErr<'src, I>>(
     id: &str,
     atom: &G,
     ops: &[(OpK, G)],
     rec: bool,
-) -> BP<'src, &'src str, E<'src>> {
+) -> BP<'src, I, E> {
     if rec {
         // `recursive(|e| atom.pratt(ops))`: `call 0` inside the atom and the operator parsers is `e`
         let id = id.to_string();
         let atom = atom.clone();
         let ops: Vec<(OpK, G)> = ops.iter().map(|(k, g)| (k.clone(), g.clone())).collect();
         return chumsky::recursive::recursive(move |e| {
-            let cx: Cx<'src, &'src str, E<'src>> = Cx { defs: vec![e.boxed()], base: 0 };
+            let cx: Cx<'src, I, E> = Cx { defs: vec![e.boxed()], base: 0 };
             build_table_in(&id, &atom, &ops, &cx)
         })
         .boxed();
     }
-    let cx: Cx<'src, &'src str, E<'src>> = Cx { defs: vec![], base: 0 };
+    let cx: Cx<'src, I, E> = Cx { defs: vec![], base: 0 };
     build_table_in(id, atom, ops, &cx)
 }
 
-fn build_table_in<'src>(
+fn build_table_in<'src, I: HInput<'src>, E: HErr<'src, I>>(
     id: &str,
     atom: &G,
     ops: &[(OpK, G)],
-    cx: &Cx<'src, &'src str, E<'src>>,
-) -> BP<'src, &'src str, E<'src>> {
+    cx: &Cx<'src, I, E>,
+) -> BP<'src, I, E> {
     let a = build(atom, cx);
-    let bops: Vec<BOp<'src>> = ops.iter().map(|(k, g)| build_op(k, build(g, cx))).collect();
+    let bops: Vec<BOp<'src, I, E>> = ops.iter().map(|(k, g)| build_op(k, build(g, cx))).collect();
     if id.starts_with('t') {
         match bops.len() {
             1 => return a.pratt((bops[0].clone(),)).boxed(),
@@ -114,8 +113,8 @@ pub fn main() {
         let mut rd = Rd::new(rest);
         let parsed = (|| -> Result<_, String> {
             let id = rd.tok()?.to_string();
-            let _ek = rd.tok()?;
-            let _kind = rd.tok()?;
+            let ek = rd.tok()?.to_string();
+            let kind = rd.tok()?.to_string();
             let mode = match rd.tok()? {
                 "parse" => ModeK::Parse,
                 _ => ModeK::Check,
@@ -149,23 +148,35 @@ pub fn main() {
                 return Err("expected I".into());
             }
             let inputs = rd.inputs()?;
-            Ok((id, mode, atom, ops, inputs, rec))
+            Ok((id, mode, atom, ops, inputs, rec, ek, kind))
         })();
         match parsed {
             Err(e) => {
                 let _ = writeln!(w, "ERR {e} :: {line}");
             }
-            Ok((id, mode, atom, ops, inputs, rec)) => {
+            Ok((id, mode, atom, ops, inputs, rec, ek, kind)) => {
                 let strs: Vec<String> = inputs
                     .iter()
                     .map(|ts| ts.iter().map(|&t| char::from_u32(t).unwrap_or('\u{fffd}')).collect())
                     .collect();
                 let strs: &[String] = &strs;
-                let p = build_table(&id, &atom, &ops, rec);
-                for (k, s) in strs.iter().enumerate() {
-                    BASE.with(|b| b.set(s.as_ptr() as usize));
-                    let obs = run_one::<&str, E>(&p, mode, s.as_str());
-                    let _ = writeln!(w, "{id}.{k} M {obs}");
+                let vecs: Vec<Vec<char>> = strs.iter().map(|s| s.chars().collect()).collect();
+                let vecs: &[Vec<char>] = &vecs;
+                macro_rules! go {
+                    ($I:ty, $E:ty, $mk:expr, $base:expr) => {{
+                        let p = build_table::<$I, $E>(&id, &atom, &ops, rec);
+                        for k in 0..strs.len() {
+                            BASE.with(|b| b.set($base(k)));
+                            let obs = run_one::<$I, $E>(&p, mode, $mk(k));
+                            let _ = writeln!(w, "{id}.{k} M {obs}");
+                        }
+                    }};
+                }
+                match (kind.as_str(), ek.as_str()) {
+                    ("slice", "cheap") => go!(&[char], chumsky::error::Cheap<Sp>, |k: usize| &vecs[k][..], |k: usize| vecs[k].as_ptr() as usize),
+                    ("slice", _) => go!(&[char], Rich<'_, char, Sp>, |k: usize| &vecs[k][..], |k: usize| vecs[k].as_ptr() as usize),
+                    (_, "cheap") => go!(&str, chumsky::error::Cheap<Sp>, |k: usize| strs[k].as_str(), |k: usize| strs[k].as_ptr() as usize),
+                    _ => go!(&str, Rich<'_, char, Sp>, |k: usize| strs[k].as_str(), |k: usize| strs[k].as_ptr() as usize),
                 }
             }
         }
